@@ -44,10 +44,13 @@ func init() {
 				`((eq($ter.GetRequestedTokenType(), oidc.AccessTokenType) || eq($ter.GetRequestedTokenType(), oidc.RefreshTokenType)) && ok(op.CreateAccessToken(_, $ter, _, $creator, $client, "")) && def($tok, op.CreateAccessToken(_, $ter, _, $creator, $client, ""), 0) && def($rt, op.CreateAccessToken(_, $ter, _, $creator, $client, ""), 1))` +
 					` || (eq($ter.GetRequestedTokenType(), oidc.IDTokenType) && ok(op.CreateIDToken(_, op.IssuerFromContext(_), $ter, _, "", "", _, $client)) && def($tok, op.CreateIDToken(_, op.IssuerFromContext(_), $ter, _, "", "", _, $client), 0))`,
 			}},
-		{ID: "E7.te.refresh-token-iff-requested", Fn: "op.needsRefreshToken", P: []string{"tokenRequest", "client"}, Kind: "ret any", Pat: "ret($req.GetRequestedTokenType() == oidc.RefreshTokenType)", Max: 1,
+		{ID: "E7.te.refresh-token-iff-requested", Fn: "op.needsRefreshToken", P: []string{"tokenRequest", "client"}, Kind: "ret fail",
 			Why: "the response declares issued_token_type = requested type, so a refresh token must be created exactly when one is requested (no further condition)",
-			Req: []string{"is($tokenRequest, TokenExchangeRequest)"}},
-		{ID: "E7.te.refresh-token-iff-requested.only", Fn: "op.needsRefreshToken", P: []string{"tokenRequest", "client"}, Kind: "ret any", Max: 5},
+			Req: []string{"notis($tokenRequest, TokenExchangeRequest) || is($tokenRequest, AuthRequest) || neq($q.GetRequestedTokenType(), oidc.RefreshTokenType)"}},
+		{ID: "E7.te.refresh-token-iff-requested.sink", Fn: "op.createTokens", P: []string{"ctx", "tokenRequest", "storage", "refreshToken", "client"}, Kind: "call",
+			Pat: "$storage.CreateAccessToken(_, $tokenRequest)", Max: 1,
+			Why: "the access-token-only path is not taken for a token exchange that asked for a refresh token",
+			Req: []string{"noRT($tokenRequest, $client)"}},
 		{ID: "E1.te.response.only", Fn: "op.CreateTokenExchangeResponse", Kind: "ret ok", Max: 1},
 		{ID: "E7.te.issupported", Fn: "oidc.TokenType.IsSupported", P: []string{"t"}, Kind: "ret ok", Req: []string{"member($t, oidc.AllTokenTypes)"},
 			Why: "a token type is supported exactly when it is one of the four listed types"},
